@@ -177,7 +177,7 @@ func (p c15) RunBatch(ctx *core.Ctx, batch int) {
 		return
 	}
 	r := ctx.Rand("deep")
-	leaves := append(qt.FullLeaves(), qt.HostileLeaves(r, gen.ValueDict(r, 80), 20, false)...)
+	leaves := append(append(qt.FullLeaves(), qt.ExtraLeaves()...), qt.HostileLeaves(r, gen.ValueDict(r, 80), 20, false)...)
 	for i := 0; i < 600; i++ {
 		t := qt.RandomTree(r, leaves, 2+r.Intn(4))
 		if t.Size() > 40 {
